@@ -11,6 +11,7 @@ import Woodpile.Driver.CodecW
 import Woodpile.Driver.RoughTlv
 import Woodpile.Driver.Hcobs
 import Woodpile.Driver.StreamWorld
+import Woodpile.Driver.Scale
 
 open Woodpile.Driver
 
@@ -32,6 +33,13 @@ def families : List (String × Family) :=
   ++ [("reader", StreamFam.readerFamily)]
   ++ [("chunkerw", StreamWorldFam.chunkerwFamily)]
   ++ [("readerw", StreamWorldFam.readerwFamily)]
+  ++ [("scale_iovec", ScaleFam.wrap IovecFam.family)]
+  ++ [("scale_codec", ScaleFam.wrap CodecWFam.family)]
+  ++ [("scale_chunker", ScaleFam.wrap StreamFam.chunkerFamily)]
+  ++ [("scale_reader", ScaleFam.wrap StreamFam.readerFamily)]
+  ++ [("scale_readn", ScaleFam.wrap ReadNFam.family)]
+  ++ [("scale_tlv", ScaleFam.wrap RoughTlvFam.family)]
+  ++ [("scale_tlvview", ScaleFam.wrap RoughTlvFam.viewFamily)]
 
 def main (args : List String) : IO UInt32 := do
   match args with
